@@ -67,6 +67,13 @@ pub proof fn rsum_nonneg<T>(s: Seq<T>, f: spec_fn(T) -> real)
     if s.len() > 0 { rsum_nonneg(s.drop_last(), f); }
 }
 
+/// a non-negative sum that is zero has only zero terms
+pub proof fn rsum_zero_terms<T>(s: Seq<T>, f: spec_fn(T) -> real, k: int)
+    requires forall|i: int| 0 <= i < s.len() ==> f(#[trigger] s[i]) >= 0real, rsum(s, f) <= 0real, 0 <= k < s.len()
+    ensures f(s[k]) == 0real
+{
+    rsum_term_le(s, f, k);
+}
 /// one term of a non-negative sum is bounded by the sum
 pub proof fn rsum_term_le<T>(s: Seq<T>, f: spec_fn(T) -> real, k: int)
     requires forall|i: int| 0 <= i < s.len() ==> f(#[trigger] s[i]) >= 0real, 0 <= k < s.len()
